@@ -162,6 +162,8 @@ def programs(tier):
     for cbk in ('raise-base',):
         progs.append({'cfg': scen.ops_cfg('one', 4096), 'steps': [con, ('push', ('bytes', scen.push_data(5000)), '/g', {'cb': cbk, 'mtime': 3}), scen.op_tuple('stat')]})
         progs.append({'cfg': scen.ops_cfg('bytes', 4096), 'steps': [con, ('pull', '/f', 'bytesio', {'cb': cbk}), scen.op_tuple('stat')]})
+    for modex in (33188.0, True, 0o644):
+        progs.append({'cfg': scen.ops_cfg('one', 4096), 'steps': [con, ('push', ('bytes', scen.push_data(300)), '/g', {'st_mode': modex, 'mtime': 3}), scen.op_tuple('stat')]})
     for dest in ('newdir',):
         # a local destination that cannot be opened (its directory does not exist): same exception, and the same bytes on the wire before it
         progs.append({'cfg': scen.ops_cfg('two', 4096), 'steps': [con, ('pull', '/f', dest), scen.op_tuple('stat'), scen.op_tuple('shell')]})
